@@ -68,6 +68,8 @@ pub enum DecodeError {
 pub struct ParsingContext {
     pub byte_offset: usize,
     pub path: Vec<PathSegment>,
+    /// current nesting depth of the term being parsed
+    pub(crate) depth: usize,
 }
 
 #[derive(Debug, Clone, PartialEq)]
@@ -85,6 +87,7 @@ impl ParsingContext {
         ParsingContext {
             byte_offset: 0,
             path: Vec::new(),
+            depth: 0,
         }
     }
 
@@ -92,6 +95,7 @@ impl ParsingContext {
         ParsingContext {
             byte_offset: offset,
             path: Vec::new(),
+            depth: 0,
         }
     }
 
